@@ -8,6 +8,8 @@ EXTENDS Domains, Bytes, TLC, Json
 CONSTANTS Alphabet, L
 VARIABLE s
 Strings == UNION {[1 .. n -> Alphabet] : n \in 0 .. L} \cup {Rep(63, 255), Rep(63, 46)}
+           \* one label whose text looks like several: "a.a.a", "a.a.a.a.a"
+           \cup {<<97, 46, 97, 46, 97>>, <<97, 46, 97, 46, 97, 46, 97, 46, 97>>}
 Init == s \in Strings
 Next == UNCHANGED s
 Spec == Init /\ [][Next]_s
